@@ -45,7 +45,16 @@ RULE = ("cases: (network, secret exponent, compression flag) round trips through
         "(y = +-1, smallest x, x just below p) as pairs in every spelling. One long-run shard: 2^16 + 100 (thorough 2^17 + 100) private-key "
         "constructions (keys.private, parse.wif, Key(secret_exponent=), parse.secret_exponent over all networks that share the generator) in ONE "
         "process, every one judged against a running sum of points, with sec / hash160 / public_pair (+ one random query) asked of ONE "
-        "private and ONE public key object on every step. Distinct by (operation, network, input, spelling); non-trivial unless the blob is empty.")
+        "private and ONE public key object on every step. Answered neighbour calls (two shards, OpenSSL and pure Python): for an "
+        "exponent no earlier case of the process touched, the compressed SEC of e*G, of -(e*G) (the sibling encoding of the same x) through "
+        "keys.public / Key.from_sec / sec_to_public_pair / parse.sec(hex) and the uncompressed SEC through one of them are decoded AFTER documented "
+        "calls that SUCCEED on the generator and involve that very x / point / key: possible_public_pairs_for_signature with r = x (y_parity equal "
+        "/ opposite to the key's, absent, both in turn, twice, and a genuine signature made with k = e), points_for_x(x) (indexed; kept, and edited by "
+        "the caller when it is a list), generator.verify / Key.verify with the pair and its negative (true and false outcomes), Key.sign / "
+        "generator.sign / sign_with_recid with e, parse.public_pair('x/even' / 'x/odd'), network.msg.pair_for_message_hash on a compact signature "
+        "with r = x, decoding the sibling encoding first, Point arithmetic on the points returned; every (family, variant) cold (x never seen by "
+        "the process) and warm (the same blobs decoded, and judged, once before the calls), through the network's own generator and through "
+        "another network's. Distinct by (operation, network, input, spelling); non-trivial unless the blob is empty.")
 ASSUMPTIONS = [
     "references vmon/refs/sec.py, der.py, b58.py, ec.py are correct (self-tested on every run: published secp256k1 "
     "encodings and hash160 values, exhaustive blob enumeration on toy curves, X.690 hand vectors, exhaustive small-alphabet DER)",
@@ -85,13 +94,20 @@ ASSUMPTIONS = [
     "and e*G from scratch; disagreement between these formulations is INCONCLUSIVE, not a violation). Base58 texts (wif, address) are judged "
     "on every parse.wif step and every 8th other step on the quick tier (pycoin's Base58 costs a sixth of a multiplication), compressed-SEC "
     "decoding on every step only on the thorough tier; the pure-Python configuration has no long run (an hour of CPU)",
+    "answered neighbour calls (recovery, verification, signing, points_for_x, pair texts, message-signature recovery, Point arithmetic) are "
+    "never judged here; only the SEC decodes around them are, with the same demands as a first decode in a fresh process: the statement's "
+    "'every public key round-trips through SEC' has no 'unless the process did something else before' (mechanism keys "
+    "sec.after_answered_call.<family>.*). A sequence points_for_x returns belongs to the caller like every other returned container: when it "
+    "is a list the caller edits it (own key sec.after_answered_call.points_for_x_edited.*); today it is a tuple and nothing is edited",
     "every clause has a required counter; counters are summed over shards, so what the PYCOIN_NATIVE=none shards reached is also "
     "recorded (and required) as purepython/<counter>, and each shard records the arithmetic it really ran with "
     "(config_active:<openssl|purepython>/<shard kind>, required for the planned one): a shard that silently ran the other "
     "configuration makes the run INCONCLUSIVE",
 ]
 EXPLANATION = ("every pycoin call is compared with the reference value; decoders may accept a blob only if the strict "
-               "reference accepts it and the accepted key re-encodes to the same bytes; named errors are checked by class")
+               "reference accepts it and the accepted key re-encodes to the same bytes; named errors are checked by class; "
+               "valid SEC encodings are decoded again after successful (unjudged) signature-recovery / verify / sign / points_for_x / pair-text calls on the "
+               "same x coordinate and must decode as in a fresh process")
 TIMEOUT = {"quick": 600, "thorough": 3 * 3600}
 
 N = REC.SECP256K1.n
@@ -123,7 +139,11 @@ def plan(tier, seed):
         s["preload_networks"] = PRELOAD_NETWORK_ORDERS[(i % 3 - 1 + seed) % len(PRELOAD_NETWORK_ORDERS)] if i % 3 else []
     longrun = {"kind": "longrun", "ops": LONGRUN_OPS["quick" if tier == "quick" else "thorough"], "shard": len(shards), "preload_networks": [],
                "label": "longrun-one-process"}
-    return [longrun] + shards
+    q = tier == "quick"
+    neighbours = [{"kind": "neighbour", "rounds": 12 if q else 120, "shard": len(shards) + 1, "preload_networks": [], "label": "neighbour-calls-openssl"},
+                  {"kind": "neighbour", "rounds": 1 if q else 8, "max_nets": 5 if q else 16, "shard": len(shards) + 2, "preload_networks": PRELOAD_NETWORK_ORDERS[seed % 2],
+                   "env": {"PYCOIN_NATIVE": "none"}, "label": "neighbour-calls-purepython"}]
+    return [longrun] + shards + neighbours
 
 
 def _plan_base(tier, seed):
@@ -1947,7 +1967,197 @@ def run_longrun(spec, rec, m, stop_at=None):
                 "last": {"net": code, "secret_exponent": se, "public_pair": P}})
 
 
+# ---------------------------------------------------------------------------------------------
+# ANSWERED neighbour calls: documented operations that succeed on the (shared) generator and involve the very x coordinate / point /
+# key that is decoded next — public-key recovery with r = x (with and without a y parity), points_for_x(x) (the caller keeps and
+# edits what it was given when that is a mutable container), signing with the key, verifying with its pair, "x/even" pair texts,
+# compact-signature recovery, decoding the sibling encoding (the other parity of the same x). None of them is judged (C10 says nothing
+# about them); the SEC decodes AFTER them are, exactly as a first decode in a fresh process would be.
+
+NEIGHBOUR_FAMILIES = {
+    "recover": ("parity_same", "parity_other", "no_parity", "both_parities", "parity_same_twice", "real_signature"),
+    "points_for_x": ("kept_and_edited", "indexed"),
+    "verify": ("generator_true", "generator_false", "key_true", "negated_pair"),
+    "sign": ("key", "generator", "with_recid"),
+    "pair_text": ("even", "odd", "both"),
+    "msg_recover": ("recid_parity_same", "recid_parity_other"),
+    "sibling_decode": ("keys.public", "sec_to_public_pair"),
+    "point_arithmetic": ("negate_add_double",),
+}
+NEIGHBOUR_VARIANTS = tuple((f_, v_) for f_ in sorted(NEIGHBOUR_FAMILIES) for v_ in NEIGHBOUR_FAMILIES[f_])
+NEIGHBOUR_DECODERS = ("keys.public(sec)", "Key.from_sec", "sec_to_public_pair", "parse.sec")
+
+
+def neighbour_calls(net, via, code, se, P, family, variant, rec, m):
+    """the answered calls of one (family, variant) around the point P = se*G; `via` is the network whose generator / parser is used
+    (all networks of one curve are expected to share the generator, the statement does not say so: both are driven)"""
+    from vmon.refs import ecdsa as RE, msgsign as RM
+    g = via.generator
+    x, y = P
+    par = y & 1
+    val = (se * 0x9E3779B97F4A7C15 + 0x1111) % N or 1
+    s_any = (se ^ 0x2222) % N or 1
+    calls = []
+    if family == "recover":
+        if variant == "real_signature":
+            # k = the key's own exponent makes r = x: a genuine signature by the key 7*se (any key would do)
+            d = se * 7 % N or 1
+            r_, s_, _R = RE.raw_sign(C, d, val, se)
+            if r_ and s_:
+                calls = [lambda: g.possible_public_pairs_for_signature(val, (r_, s_), y_parity=par),
+                         lambda: g.possible_public_pairs_for_signature(val, (r_, s_))]
+        else:
+            ps = {"parity_same": (par,), "parity_other": (1 - par,), "no_parity": (None,), "both_parities": (0, 1),
+                  "parity_same_twice": (par, par)}[variant]
+            calls = [(lambda p_=p_: g.possible_public_pairs_for_signature(val, (x, s_any), y_parity=p_)) if p_ is not None
+                     else (lambda: g.possible_public_pairs_for_signature(val, (x, s_any))) for p_ in ps]
+    elif family == "points_for_x":
+        if variant == "kept_and_edited":
+            calls = [lambda: _scribble(g.points_for_x(x), rec)]
+        else:
+            calls = [lambda: (g.points_for_x(x)[1], g.points_for_x(x)[0], g.points_for_x(x)[par])]
+    elif family == "verify":
+        d = se
+        r_, s_, _R = RE.raw_sign(C, d, val, (se * 3 + 5) % N or 1)
+        h = val.to_bytes(32, "big")
+        if variant == "generator_true":
+            calls = [lambda: g.verify(P, val, (r_, s_))]
+        elif variant == "generator_false":
+            calls = [lambda: g.verify(P, val + 1, (r_, s_)), lambda: g.verify(P, val, (x % N or 1, s_any))]
+        elif variant == "key_true":
+            calls = [lambda: via.keys.public(P).verify(h, RD.encode(r_, s_))]
+        else:
+            calls = [lambda: g.verify(C.neg(P), val, (r_, s_)), lambda: via.keys.public(C.neg(P), is_compressed=False).verify(h, RD.encode(r_, s_))]
+    elif family == "sign":
+        h = val.to_bytes(32, "big")
+        if variant == "key":
+            calls = [lambda: via.keys.private(se).sign(h)]
+        elif variant == "generator":
+            calls = [lambda: g.sign(se, val)]
+        else:
+            calls = [lambda: g.sign_with_recid(se, val)]
+    elif family == "pair_text":
+        words = {"even": ("even",), "odd": ("odd",), "both": ("odd", "even")}[variant]
+        calls = [(lambda w_=w_: via.parse.public_pair("%d/%s" % (x, w_))) for w_ in words]
+    elif family == "msg_recover":
+        if x < N:
+            recid = par if variant == "recid_parity_same" else 1 - par
+            text = RM.compact(27 + 4 + recid, x, s_any)
+            calls = [lambda: via.msg.pair_for_message_hash(text, val)]
+    elif family == "sibling_decode":
+        sib = RS.encode(C.neg(P), True)
+        if variant == "keys.public":
+            calls = [lambda: via.keys.public(sib).sec()]
+        else:
+            calls = [lambda: m.sec_to_public_pair(sib, g)]
+    elif family == "point_arithmetic":
+        def arithmetic():
+            a, b = g.points_for_x(x)
+            return (-a, a + a, a + b, 2 * b, b + g)
+        calls = [arithmetic]
+    else:
+        raise ValueError(family)
+    for fn in calls:
+        st, v = observe(fn)
+        rec.ev("neighbour_call:%s" % family)
+        rec.ev("neighbour_call_answered:%s" % family if st == "ok" and v is not None else "neighbour_call_not_answered:%s" % family)       # not judged
+    return len(calls)
+
+
+def judge_after_neighbours(net, code, se, family, variant, warm, via_code, rec, m, pf):
+    """SEC decodes of the point se*G, of its negative (the sibling encoding of the same x) and of the uncompressed form, after the
+    answered calls of (family, variant); warm = the same blobs were decoded once before those calls as well (also judged)"""
+    P = m.refpub(se)
+    via = m.nets.get(via_code, net)
+    case = {"net": code, "neighbour": {"se": se, "family": family, "variant": variant, "warm": bool(warm), "via": via_code}}
+    rec.case(("neighbour", code, se, family, variant, bool(warm), via_code))
+    KeyClass = m.keyclass(code)
+    mech_family = family + ("_edited" if variant == "kept_and_edited" else "")
+    blobs = [(RS.encode(P, True), P, True), (RS.encode(C.neg(P), True), C.neg(P), True), (RS.encode(P, False), P, False)]
+    decoders = {"keys.public(sec)": net.keys.public, "Key.from_sec": KeyClass.from_sec,
+                "sec_to_public_pair": lambda b: m.sec_to_public_pair(b, net.generator), "parse.sec": lambda b: net.parse.sec(b.hex())}
+
+    def decode_all(stage):
+        ok = True
+        for bi, (blob, Q, flag) in enumerate(blobs):
+            for di, name in enumerate(NEIGHBOUR_DECODERS):
+                if bi == 2 and di != (se + bi) % len(NEIGHBOUR_DECODERS):
+                    continue                         # the uncompressed form needs no decompression: one decoder in turn
+                st, got = observe(decoders[name], blob)
+                rec.ev("sec_decode_after_neighbour" if stage == "after" else "sec_decode_before_neighbour")
+                c_ = dict(case, blob=blob, entry=name, stage=stage)
+                prefix = "sec.after_answered_call.%s." % mech_family if stage == "after" else "sec.before_answered_call."
+                if st != "ok" or got is None:
+                    rec.violation(prefix + "rejects_valid", c_, got, "key" if name != "sec_to_public_pair" else Q)
+                    ok = False
+                    continue
+                if name == "sec_to_public_pair":
+                    if tuple(got) != Q:
+                        rec.violation(prefix + "changes_public_pair", c_, tuple(got), Q)
+                        ok = False
+                    continue
+                h = RS.hash160(blob)
+                obs = [tuple(got.public_pair()), bool(got.is_compressed()), observe(got.sec)[1], observe(got.hash160)[1], observe(got.address)[1]]
+                exp = [Q, flag, blob, h, RB.encode_check(pf["addr"] + h)]
+                if obs != exp:
+                    names = ["public_pair", "compression_flag", "sec", "hash160", "address"]
+                    rec.violation(prefix + "changes_" + [n for n, a, b in zip(names, obs, exp) if a != b][0], c_, obs, exp)
+                    ok = False
+        return ok
+
+    if warm and not decode_all("before"):
+        return
+    n_calls = neighbour_calls(net, via, code, se, P, family, variant, rec, m)
+    if not n_calls:
+        rec.ev("neighbour_variant_not_applicable")     # x >= n (no such r): nothing was placed, the decode below is a plain one
+    else:
+        rec.ev("neighbour_history:%s" % family)
+        rec.ev("neighbour_history_warm" if warm else "neighbour_history_cold")
+        if via_code != code:
+            rec.ev("neighbour_history_via_other_network")
+    decode_all("after")
+
+
+def run_neighbours(spec, rec, m):
+    rng = shard_rng(spec["seed"], PROPERTY, spec["tier"], spec["shard"])
+    codes = sorted(m.nets)
+    if spec.get("max_nets"):
+        start = spec["seed"] % len(codes)
+        codes = [codes[(start + i * 7) % len(codes)] for i in range(spec["max_nets"])]
+    pfs = {}
+    bounds = boundary_exponents()
+    used = set()
+    n = 0
+    for rnd in range(spec["rounds"]):
+        for vi, (family, variant) in enumerate(NEIGHBOUR_VARIANTS):
+            for warm in (False, True):
+                # every case has an exponent (an x coordinate) no earlier case of this process has touched
+                while True:
+                    mode = rng.random()
+                    se = bounds[(n + spec["seed"]) % len(bounds)] * (2 + n // len(bounds)) % N if mode < 0.15 else rng.randrange(1, N) if mode < 0.8 \
+                        else rng.randrange(1, 1 << rng.choice([16, 64, 200])) if mode < 0.9 else N - rng.randrange(1, 1 << 64)
+                    if se and se not in used and N - se not in used:
+                        break
+                used.add(se)
+                code = codes[n % len(codes)]
+                via_code = code if n % 3 else codes[(n * 5 + 1) % len(codes)]
+                n += 1
+                net = m.nets[code]
+                if code not in pfs:
+                    pfs[code] = net_prefixes(net, code, rec)
+                if pfs[code] is None:
+                    continue
+                judge_after_neighbours(net, code, se, family, variant, warm, via_code, rec, m, pfs[code])
+                if rnd == 0 and not warm and vi % 6 == 0:
+                    rec.sample({"op": "SEC decode after answered neighbour calls", "net": code, "secret_exponent": se, "family": family,
+                                "variant": variant, "via": via_code})
+    rec.ev("networks_usable", len(codes))
+
+
 REQUIRED = {
+    "neighbour": tuple("neighbour_history:" + f_ for f_ in sorted(NEIGHBOUR_FAMILIES)) + tuple("neighbour_call_answered:" + f_ for f_ in sorted(NEIGHBOUR_FAMILIES))
+                 + ("sec_decode_after_neighbour", "sec_decode_before_neighbour", "neighbour_history_warm", "neighbour_history_cold",
+                    "neighbour_history_via_other_network", "networks_usable"),
     "roundtrip": tuple("refused_call:" + k_ for k_ in REFUSED_KINDS) + ("mutable_arg:sec_bytearray", "returned_container:immutable", "short_coordinate_key:x", "short_coordinate_key:y",
                                                                                 "short_coordinate_key:both") + ("parse.wif", "keys.public(sec)", "Key.from_sec", "sec_to_public_pair", "key.sec", "key.hash160", "key.address", "key.wif",
                   "Key(secret_exponent)", "Key(public_pair)", "key.sec_as_hex", "sec_text_roundtrip", "key.query_history", "networks_usable"),
@@ -2002,7 +2212,8 @@ def run_shard(spec, rec):
     rec.require(*reqs)
     if kind == "longrun" and spec["tier"] != "quick":
         rec.require("longrun:more_than_2^17_on_one_generator", "longrun:sec_decodes")
-    {"roundtrip": run_roundtrip, "secret": run_secret, "sec": run_sec, "history": run_histories, "wif": run_wif, "der": run_der, "longrun": run_longrun}[kind](spec, rec, m)
+    {"roundtrip": run_roundtrip, "secret": run_secret, "sec": run_sec, "history": run_histories, "wif": run_wif, "der": run_der, "longrun": run_longrun,
+     "neighbour": run_neighbours}[kind](spec, rec, m)
     if planned == "purepython":
         # counters are summed over shards: the clauses reached in the second configuration are shown (and required) under its own name
         for r in reqs:
@@ -2014,7 +2225,13 @@ def run_shard(spec, rec):
 def replay_case(case, rec):
     m = M(rec)
     m.replay = True
-    if "longrun" in case:
+    if "neighbour" in case:
+        net = m.nets[case["net"]]
+        nb = case["neighbour"]
+        pf = net_prefixes(net, case["net"], rec)
+        if pf is not None:
+            judge_after_neighbours(net, case["net"], int(nb["se"]), str(nb["family"]), str(nb["variant"]), bool(nb["warm"]), str(nb["via"]), rec, m, pf)
+    elif "longrun" in case:
         # the N-th operation of a process: the whole run up to that step is repeated
         lr = case["longrun"]
         run_longrun({"seed": int(lr["seed"]), "tier": lr["tier"], "shard": int(lr["shard"]), "ops": int(lr["ops"])}, rec, m, stop_at=int(lr["at"]))
